@@ -123,23 +123,36 @@ def has_call_gate(atoms, name, value=True, first_endswith=None):
     return False
 
 
-def has_eq_gate(atoms, side_endswith, const_endswith, value=True):
+def has_eq_gate(atoms, side_endswith, const_endswith, value=True, _cross=True):
+    """`<..side> == <..const>` holds (value=True) / does not hold on the path; a match arm on the same place
+    with the same (single) variant says the same thing"""
     for a in atoms:
         if a[0] == "eq" and a[3] == value:
             sides = [a[1], a[2]]
             s = [_strip_ids(x) for x in sides if isinstance(x, str)]
             if any(x.endswith(side_endswith) for x in s) and any(x.endswith(const_endswith) for x in s):
                 return True
+    if _cross:
+        for a in atoms:
+            if a[0] == "variant" and a[3] == value and isinstance(a[2], str) and a[2].endswith(const_endswith) and _strip_ids(a[1] or "").endswith(side_endswith):
+                return True
     return False
 
 
-def has_variant_gate(atoms, variant_endswith, place_endswith=None, value=True):
+def has_variant_gate(atoms, variant_endswith, place_endswith=None, value=True, _cross=True):
     for a in atoms:
         if a[0] == "variant" and a[3] == value:
             v = a[2]
             vs = [v] if isinstance(v, str) else list(v or [])
             if any(isinstance(x, str) and x.endswith(variant_endswith) for x in vs):
                 if place_endswith is None or (a[1] or "").endswith(place_endswith):
+                    return True
+    if _cross:
+        # `place == Enum::Variant` written as a comparison
+        for a in atoms:
+            if a[0] == "eq" and a[3] == value:
+                s = [_strip_ids(x) for x in (a[1], a[2]) if isinstance(x, str)]
+                if any(x.endswith(variant_endswith) for x in s) and (place_endswith is None or any(x.endswith(place_endswith) for x in s)):
                     return True
     return False
 
